@@ -43,7 +43,7 @@ func c17AudioLevel(c *mc.Ctx) {
 	c.Ops(1)
 	c.Notef("AudioLevel{%d,%v}.Marshal() = %s, %v", level, voice, hx(b), err)
 	if level > 127 {
-		c.Check(err != nil && b == nil, "audiolevel-range", "level %d: Marshal returned %s, %v", level, hx(b), err)
+		c.Check(err != nil, "audiolevel-range", "level %d: Marshal returned %s, %v", level, hx(b), err)
 		c.Outcome("rejected")
 	} else {
 		want := byte(level)
@@ -137,7 +137,7 @@ func c17PlayoutDelayInvalid(c *mc.Ctx) {
 	c.Ops(1)
 	c.Notef("PlayoutDelay{%d,%d}.Marshal() = %s, %v", min, max, hx(b), err)
 	if min > 4095 || max > 4095 {
-		c.Check(err != nil && b == nil, "playoutdelay-range", "min %d max %d accepted: %s", min, max, hx(b))
+		c.Check(err != nil, "playoutdelay-range", "min %d max %d accepted: %s", min, max, hx(b))
 		c.Outcome("rejected")
 		c.NonTrivial()
 	} else {
